@@ -33,6 +33,9 @@ def tmpdir():
         base = "/dev/shm" if os.path.isdir("/dev/shm") else \
             os.path.join(VERIF_ROOT, "scratch")
         _TMP = tempfile.mkdtemp(prefix="verif_c20_", dir=base)
+        # library code under test also creates temporary directories
+        # (load_hdf5); keep them inside the per-run scratch directory
+        tempfile.tempdir = _TMP
         import atexit
         atexit.register(shutil.rmtree, _TMP, True)
     return _TMP
